@@ -7,15 +7,19 @@ MANIFEST = {
             "@import/:host rewriting, the non-whitespace tokens of the normal output are one-for-one and in order the input "
             "tokens, each unchanged or a documented rewrite (class prefix / rpx->vw), and the low-priority output is empty "
             "(induction over the five walkers of lib.rs); C08_separator_sound / C08_no_spurious_separator (separator table of "
-            "output.rs, both directions). The full statement incl. meaningful whitespace (C08_conforms_full: both outputs "
+            "output.rs, both directions). C08_token_shapes_exact_sheet — for EVERY option set (prefix, sign, import sign, host "
+            "conversion) and every well-shaped tree whose rules are complete, outside class D29: the non-whitespace tokens of the "
+            "whole normal output (kind, unit, strings) are exactly the specification's, in order (lockstep induction of `rules` "
+            "against `rules_spec`: rule splitting, preludes, nested rule lists, @import placeholders with their wrappers, :host "
+            "rules absent). The full statement incl. meaningful whitespace (C08_conforms_full: both outputs "
             "conform to the grammar-directed specification CssSpec.expected) is REFUTED by the model of the current code "
             "(C08_conforms_refuted) with machine-checked witnesses for the remaining classes D15 and D27; the witnesses of the "
             "repaired classes D13/D14/D23 are proved to conform now (C08_fixed_D13_D14_D23_conform). Each run: the extracted "
             "model and the real crate process the same generated stylesheets (model agreement is byte-exact: text, source "
             "map, warnings) and the re-tokenised implementation output is checked against CssSpec.expected/conforms outside "
             "the known classes.",
-    "note": "NOT proved: the conditional whitespace theorem (model conforms to `expected` for every well-formed sheet outside "
-            "the known classes) — that part rests on the differential run (spec evaluated on the implementation's output for "
+    "note": "NOT proved: the white space between the tokens (the gap requirements of `expected`: required / forbidden "
+            "separators) for every well-formed sheet outside the known classes — that part rests on the differential run (spec evaluated on the implementation's output for "
             "every generated sheet). cssparser's tokenizer/serializer are the oracle (trusted). Known findings D15 D24 D27 "
             "D28 are listed in known_findings.json with narrow decidable classes (CssSpec.known); D13 D14 D23 D26 were repaired "
             "in /repo and sheets of those former classes are checked against the specification like all others.",
@@ -24,7 +28,7 @@ MANIFEST = {
 }
 
 THEOREMS = ["C08_separator_sound", "C08_no_spurious_separator", "C08_tokens_preserved", "C08_conforms_refuted",
-            "C08_witness_D15", "C08_witness_D27", "C08_fixed_D13_D14_D23_conform"]
+            "C08_witness_D15", "C08_witness_D27", "C08_fixed_D13_D14_D23_conform", "C08_token_shapes_exact_sheet"]
 
 
 def run(res):
